@@ -17,6 +17,7 @@ type Program struct {
 	Dir          string
 	Pkgs         []*packages.Package
 	SSA          *ssa.Program
+	contSumm     map[*ssa.Function]map[int]string
 	Fset         *token.FileSet
 	Module       string
 	Funcs        map[string]*ssa.Function // key -> function (see funcKey)
